@@ -32,6 +32,11 @@ CLAIMS = {
         note="Trusted: Coq kernel/vm_compute; file system model; the visit lists are read from the real code each run. The documented output_path rule is validated on the universe's export_to forms (absent, directory, file, nested, ../).",
         technique="Coq proof over the export state machine + before/after snapshot correspondence on a real directory",
         ref="DESIGN.md section 5 C11, section 10"),
+    "C07": dict(
+        text="Coq theorems about the derive model (Model/Gen.v: open-recursion transcription of macros/src/types/*.rs, lib.rs generate_decl_fn/format_generics and the container impls of ts-rs/src/lib.rs) for ALL environments of definitions, all nesting depths and all type arguments: the body of a declaration mentions only the parameters its header binds, the header lists the definition's type parameters in order with the names of their defaults (C07_scoped, C07_params); a reference to an instantiation is the identifier applied to the arguments' names (C07_name); and the generic declaration's body instantiated at the arguments IS the inline form at those arguments — parameters in name position replaced by the arguments' names, in flattened position by their flattened forms, nothing else changed (C07_instantiate, by induction over the type grammar and the fuel of the generator). Tied to the code on every run by the corpus run: generated definitions compiled against /repo, model text vs real name()/inline()/decl()/decl_concrete() byte for byte at 3 instantiations of every generic definition, plus oracles on the real texts (decl identical across instantiations; expansion computed by Coq equals the real decl_concrete()).",
+        note="Trusted: Coq kernel/vm_compute; the hand transcription of the derive (pinned by the corpus correspondence, sampling); rustc. decl() taking no arguments is true of the model by construction and of the implementation by the correspondence only. Known classes (known_findings.json): a parameter under #[ts(inline)] makes decl() panic; optional/optional_fields on a bare parameter. Const parameters, lifetimes and #[ts(concrete)] are not in the generated fragment.",
+        technique="Coq proof (induction over the Rust type grammar, case analysis of the derive layer, induction on generator fuel) + compiled corpus correspondence (model text vs real decl()/decl_concrete()/name()/inline()) + substitution oracle evaluated by Coq on the real declarations",
+        ref="DESIGN.md section 5 C07, section 10"),
     "C17": dict(
         text="Coq state machine (Model/ExportSM.v) with Ok/Err/Panic outcomes: theorems that a failing export_to changes neither the registry nor any file, that paths above the root and non-exportable roots are errors (with C08_absolute_above_root). Tied to the code on every run: histories with one obstacle (target is a directory, parent component is a regular file, above-root path, non-exportable root, export_all failing half-way) before each step, removal and retry, on a real directory under catch_unwind: no panic, and the tree after retry equals the fault-free tree; model and implementation compared byte for byte.",
         note="Trusted: Coq kernel/vm_compute; file system model (errors exactly where the property lists obstacles). Partial: I/O faults below File::create (short writes, sync_all) cannot be injected offline; the model has the insert-after-success branch, the implementation side of it is not exercised.",
